@@ -73,8 +73,9 @@ META = dict(
                 "where Go drops it (unreachable for parser-made names). Hypotheses: Float == reflexive on integer keys (Lean's Float is "
                 "opaque); object theorems are about string keys, templates other than the fresh object, list slot 0 = nil slice; no "
                 "parameter named this/super for the this/super value theorems; slices with len <= capacity; paths that do not pass through "
-                "the cell they write. Calls of a call result f()(x) / o.m().n(x): the real code runs the chained form, the model its "
-                "let-desugaring (fixes/C05-call-of-call-result.patch). Outside the model (not compared): mutex blocks, "
+                "the cell they write. Calls of a call result f()(x): known finding call-result-not-callable (calls after the first funccall of "
+                "an identifier are dropped); the model runs the as-is program (kf=) and the let-desugaring (spec=); candidate repair "
+                "fixes/C05-call-of-call-result.patch. Outside the model (not compared): mutex blocks, "
                 "stringified mixed-key maps / functions / non-integral floats."),
 )
 
